@@ -192,7 +192,7 @@ class Summary:
                 # a name that every iteration defines before using it is not loop-carried: what it held before the loop is dead
                 live = any(x is d[0] or x == d[0] for x in walk(d[1]))
                 data = ('tuple', (d[0], d[1])) if live else ('tuple', (('const', 'defined-in-body'), d[1]))
-            elif k in ('return', 'raise', 'expr', 'while_test'):
+            elif k in ('return', 'raise', 'expr', 'while_test', 'yield'):
                 data = d[0] if d[0] is not None else ('const', None)
             elif k == 'handler':
                 data = ('const', d[0])
